@@ -123,7 +123,9 @@ def run_batch(tag, cases, want_model):
     # the model runs the low level operations of a subset of the files (want_model(cid))
     mlines = [(c, l) for c, l in lines if want_model(c.split("|")[0]) and (l.startswith("db ") or l.startswith(LOW) or l.startswith(HIGH))]
     res2, _, model = ops.run_cmds(tag + "-m", mlines, timeout=900, sides=("model",))
-    res["model"] = res2["model"]
+    res["model"] = (res2["model"][0], "", res2["model"][2])
+    if res["impl"][0] == 0:
+        res["impl"] = (0, "", res["impl"][2])        # the text has been split into `impl`; only a died run's raw output is needed
     return res, impl, model, lines
 
 
@@ -211,8 +213,10 @@ def check(run):
     want = (lambda cid: True) if not quick else (lambda cid: not cid.startswith(("m/", "d/", "l/", "s/")) or hash_even(cid))
     from concurrent.futures import ThreadPoolExecutor
     starts = list(range(0, len(cases), B))
-    with ThreadPoolExecutor(max_workers=6) as ex:
-        results = list(ex.map(lambda s: run_batch("c05-%d" % (s // B), [(c, p, o) for c, p, o, _ in cases[s:s + B]], want), starts))
+    # the batches run six at a time; each one's outputs are judged and dropped as it comes (the thorough tier's outputs together are
+    # tens of gigabytes)
+    ex = ThreadPoolExecutor(max_workers=6)
+    results = ex.map(lambda s: run_batch("c05-%d" % (s // B), [(c, p, o) for c, p, o, _ in cases[s:s + B]], want), starts)
     for s, (res, impl, model, lines) in zip(starts, results):
         batch = cases[s:s + B]
         irc, iout, ierr = res["impl"]
